@@ -56,6 +56,8 @@ import IrVerif.Lemmas.PassFlags14
 import IrVerif.Lemmas.PassKernel
 import IrVerif.Lemmas.PassKernel2
 import IrVerif.Lemmas.PassKernelNames2
+import IrVerif.Lemmas.PassKernelFlag
+import IrVerif.Lemmas.PassKernelOuts3
 import IrVerif.Lemmas.PassFlags15
 import IrVerif.Props.C05
 import IrVerif.Props.C01
@@ -2156,6 +2158,23 @@ theorem C14_names_kept (exact : Bool) (akey : Nat → Option Nat) (fuel : Nat) (
       ((lsiModelK fuel w g).1.w.val u).name = some nm) :=
   ⟨(cseModelK_ninv exact akey w g).kept u nm hn, (lsiModelK_ninv fuel w g).kept u nm hn⟩
 
+/-- **C14_names_cse_outputs** (wave 5): CSE keeps the interface names of the main graph.  The output list keeps its
+    length, and every position whose value has a name holds, after the pass, a value with exactly that name - the
+    same value, the kept value that took over the name (`new_value.name = graph_output.name`), or the output of the
+    Identity node the pass created under that name - for every classification of the attribute values, whether the
+    pass returns or raises.  (Proof: Lemmas/PassKernelOuts.lean .. PassKernelOuts3.lean - which calls leave an output
+    list alone, the exact effect of `graph.outputs[i] = v` and of an accepted `Value.name = ...`, and an invariant of
+    the walk over `enumerate(graph.outputs)` with its `replaced` dictionary: unprocessed positions are untouched,
+    every replacement carries the name of what it replaces and sits at a processed position, hence is a graph output
+    and is never renamed by a later step; C01's invariant supplies 'a value that is not a graph output is in no
+    output list'.) -/
+theorem C14_names_cse_outputs (exact : Bool) (akey : Nat → Option Nat) (w : World) (g : Nat) (h : WF w) :
+    ((cseModelK exact akey w g).1.w.gr g).outputs.length = (w.gr g).outputs.length ∧
+    ∀ (i v : Nat) (nm : String), (w.gr g).outputs[i]? = some v → (w.val v).name = some nm →
+      ∃ v', ((cseModelK exact akey w g).1.w.gr g).outputs[i]? = some v' ∧
+        ((cseModelK exact akey w g).1.w.val v').name = some nm :=
+  cseModelK_OK exact akey w g h
+
 /-- **C14_names_initializers** (wave 5): after each of the four programs every initializer of every graph is
     registered under its own, non-empty name (the name serialization writes) - in particular the initializers
     LiftConstants creates and the ones LiftSubgraphInitializers moves and renames.  Corollary of `C14_wf_*`. -/
@@ -2172,6 +2191,25 @@ theorem C14_names_initializers (exact liftAll : Bool) (akey hkey tkey : Nat → 
     · exact (lsiModelK_inv fuel w g h).wf
     · exact (ddModelK_inv hkey tkey fuel w g h).wf
   exact hwf.key.name g' key v hm
+
+/-- **C14_flag_kernel** (wave 5): flag honesty of the four programs at the level of C01's world (names, use-def
+    links, ownership, initializer keys, node sequences, name authority - everything the earlier flag theorems on
+    C05's IR leave out except shapes / types / metadata): a run that returns (does not raise) with `modified = False`
+    (`count = 0`) has issued NO call; the world is the start world. -/
+theorem C14_flag_kernel (exact liftAll : Bool) (akey hkey tkey : Nat → Option Nat) (big tnamed : Nat → Bool)
+    (fuel : Nat) (w : World) (g : Nat) :
+    ((cseModelK exact akey w g).2 = false → (cseModelK exact akey w g).1.raised = false →
+      (cseModelK exact akey w g).1.w = w ∧ (cseModelK exact akey w g).1.trace = []) ∧
+    ((lcModelK liftAll big tnamed fuel w g).2 = 0 → (lcModelK liftAll big tnamed fuel w g).1.raised = false →
+      (lcModelK liftAll big tnamed fuel w g).1.w = w ∧ (lcModelK liftAll big tnamed fuel w g).1.trace = []) ∧
+    ((lsiModelK fuel w g).2 = 0 → (lsiModelK fuel w g).1.raised = false →
+      (lsiModelK fuel w g).1.w = w ∧ (lsiModelK fuel w g).1.trace = []) ∧
+    ((ddModelK hkey tkey fuel w g).2 = false → (ddModelK hkey tkey fuel w g).1.raised = false →
+      (ddModelK hkey tkey fuel w g).1.w = w ∧ (ddModelK hkey tkey fuel w g).1.trace = []) := by
+  have key : ∀ s : KSt, Quiet w s → s.raised = false → s.w = w ∧ s.trace = [] := fun s hq hr =>
+    hq.elim id (fun h => by rw [hr] at h; simp at h)
+  exact ⟨fun h => key _ (cseModelK_quiet exact akey w g h), fun h => key _ (lcModelK_quiet liftAll big tnamed fuel w g h),
+    fun h => key _ (lsiModelK_quiet fuel w g h), fun h => key _ (ddModelK_quiet hkey tkey fuel w g h)⟩
 
 /-- any pass that touches the IR only through the modelled public mutators keeps the invariant: what the two
     theorems above instantiate (`C01_history_from` read as a statement about passes) -/
@@ -2308,6 +2346,7 @@ example : WF wCse := C01_history _
 example : (cseModelK false (fun _ => some 0) wCse 0).2 = true ∧ (cseModelK false (fun _ => some 0) wCse 0).1.raised = false ∧
     (cseModelK false (fun _ => some 0) wCse 0).1.trace.length = 4 ∧
     (wCse.val 0).name = some "x" ∧ ((cseModelK false (fun _ => some 0) wCse 0).1.w.val 0).name = some "x" ∧
+    (wCse.gr 0).outputs = [2] ∧ (wCse.val 2).name = some "val_1" ∧
     (wCse.val 1).name = some "val_0" ∧ ((cseModelK false (fun _ => some 0) wCse 0).1.w.val 1).name = some "val_1" ∧
     ((cseModelK false (fun _ => some 0) wCse 0).1.w.gr 0).outputs = [1] := by decide +kernel
 
